@@ -140,4 +140,12 @@ TEXTS = {
                     "other seeds (difference), and its conditioning (data, interval bounds, facies) is checked against an oracle recomputed in the harness."),
         level_note=("Trusted: the harness's threshold computation for lithotype rules, rapidcheck. The fresh-process half of reproducibility is exercised by the "
                     "replay tier and by C10; SPDE conditional simulation is not required to be exact at data.")),
+    "C15": dict(
+        engine="rapidcheck",
+        technique="property-based testing (rapidcheck): differential matrix-free vs assembled precision, SPD and barycentric-coordinate predicates, Cholesky vs conjugate-gradient differential with a derived bound, residual checks of every solve, on generated meshes and Matern models",
+        design_ref="DESIGN.md §5 C15",
+        level_text=("Exploration: ~8 000 (quick) to 220 000 (thorough) generated mesh/model/data configurations; operators are compared with dense long-double "
+                    "references, projections with geometry computed in the harness, iterative results with direct ones within bounds derived from the solver tolerance."),
+        level_note=("Trusted: dense linear algebra of the harness (Eigen, long double), S and Lambda as produced by the library (their values are not re-derived), "
+                    "rapidcheck. Dense references cap meshes at ~460 apices (projection up to 14^3).")),
 }
